@@ -1,11 +1,14 @@
 (* C02/Props.v — the property theorems, nothing else.
    Model: C02/Model.v (commands of plugins/User, Admin, Channel with their converters and gates, on top of the
-   C03 / C04 / C13 / C16 models).  Proofs: C02/Lemmas.v (in-memory invariant), C02/Reload.v (flush+reload, witnesses).
+   C03 / C04 / C13 / C16 models).  Proofs: C02/Lemmas.v (in-memory owner invariant), C02/Bridge.v (C03 and C16
+   capability algebra coincide), C02/Reader.v (the users.conf reader on well-formed accounts, collisions included),
+   C02/Inv.v (well-formedness is an invariant of the histories), C02/Reload.v (C16 domain, examples).
    owner_in z us : some account with id z in us holds the capability owner;
    owners_sub us' us : every owner id of us' is an owner id of us. *)
 From Coq Require Import List NArith ZArith Bool.
 Import ListNotations.
-Require Import Base.Wire Base.PyStr C02.Model C02.Lemmas C02.Reload.
+Require Import Base.Wire Base.PyStr C02.Model C02.Lemmas C02.Inv C02.Reload.
+Require C02.Reader C16.Model.
 
 (* the converter lists of the 18 modelled commands are the ones the model was written against *)
 Theorem C02_specs_pinned : specs_ok gen.T02.SPECS = true.
@@ -27,32 +30,47 @@ Theorem C02_effect_never_grants_owner :
 Proof. intros s E text a cs H. pose proof (effect_of_ok s E text) as K. rewrite H in K. exact K. Qed.
 Print Assumptions C02_effect_never_grants_owner.
 
-(* Full statement of the reload clause (refuted on the pinned tree, findings F1 and F43):
-     forall ops s, owners_sub (s_users (run_ops s ops)) (s_users s)        (ops may contain OReload)
-   Proved on the decidable domain "at every reload point the accounts being written satisfy C16's users_dom
-   (and no half-built record is left in IrcUserCreator.u)": *)
-Theorem C02_no_new_owner_reload_on_domain :
+(* The reload clause.  Full statement:
+     forall ops s, owners_sub (s_users (run_ops s ops)) (s_users s)                (ops may contain OReload)
+   Since the repairs of C02.F1 (user names) and C02.F43 (capability tokens) every account the modelled commands
+   write is well formed for users.conf; this is an invariant of the histories (wf_state: ids >= 0; names safe
+   fields and not hostmask-shaped; passwords hashed; capabilities folded single tokens other than -owner; nicks and
+   gpg keys as C16 requires; IrcUserCreator.u empty or a record with an id) ... *)
+Theorem C02_wf_state_invariant :
+  forall ops s, wf_state s = true -> reloads_hosts_ok s ops = true -> wf_state (run_ops s ops) = true.
+Proof.
+  intros ops s H Hh. apply wf_state_Inv. apply wf_state_Inv in H. exact (proj1 (run_ops_inv_sub ops s H Hh)).
+Qed.
+Print Assumptions C02_wf_state_invariant.
+
+(* ... and from a well-formed database no history of commands, flushes and reloads adds an owner — whatever the
+   id / name / hostmask collisions between accounts (the load then stops or drops hostmasks, C02/Reader.v), which
+   C16's round-trip domain excludes.  Remaining hypotheses, and why:
+     wf_state s            the starting database: in particular every password is hashed (an account with an
+                           unhashed password would store the next `user set password` argument raw);
+     reloads_hosts_ok      at reload points every stored hostmask is a single token: `user hostmask add "a!b@c\n"`
+                           passes isUserHostmask (its `$` tolerates a trailing newline), and msg.prefix is an
+                           arbitrary string in the model (the IRC parser never yields whitespace in it). *)
+Theorem C02_no_new_owner_reload :
+  forall ops s, wf_state s = true -> reloads_hosts_ok s ops = true ->
+  owners_sub (s_users (run_ops s ops)) (s_users s).
+Proof.
+  intros ops s H Hh. apply wf_state_Inv in H. exact (proj2 (run_ops_inv_sub ops s H Hh)).
+Qed.
+Print Assumptions C02_no_new_owner_reload.
+
+(* The earlier domain, kept because it is incomparable (it admits legacy accounts with unhashed passwords, but
+   needs collision freedom): at every reload point the accounts written satisfy C16's users_dom. *)
+Theorem C02_no_new_owner_reload_on_c16_domain :
   forall ops s, reloads_in_dom s ops = true -> owners_sub (s_users (run_ops s ops)) (s_users s).
 Proof. exact run_ops_sub_dom. Qed.
-Print Assumptions C02_no_new_owner_reload_on_domain.
+Print Assumptions C02_no_new_owner_reload_on_c16_domain.
 
-(* one reload, stated directly on C16's domain *)
-Theorem C02_reload_on_domain :
-  forall s, reload_dom s = true -> owners_sub (s_users (reload s)) (s_users s).
-Proof. exact reload_on_domain. Qed.
-Print Assumptions C02_reload_on_domain.
-
-(* F1: `user register "x\n  capability owner" pw` typed by an unregistered user (the tokenizer of C13 turns \n
-   into LF), then flush+reload: account 4 is owner although only account 1 was. *)
-Theorem C02_no_new_owner_reload_refuted :
-  exists ops s, reloads_in_dom s ops = false /\ ~ owners_sub (s_users (run_ops s ops)) (s_users s).
-Proof. exists h_f1, s0. exact reload_refuted_f1. Qed.
-Print Assumptions C02_no_new_owner_reload_refuted.
-
-(* F43: `admin capability add plain " owner"` by an admin who is not owner, then flush+reload: plain is owner.
-   Every account NAME is a safe field here, so "names without CR/LF" is not a sufficient domain. *)
-Theorem C02_no_new_owner_reload_refuted_by_capability :
-  reloads_in_dom s0 h_f43 = false /\ names_safe (step s0 (OCmd E_adm t_f43)) = true /\
-  ~ owners_sub (s_users (run_ops s0 h_f43)) (s_users s0).
-Proof. destruct reload_refuted_f43 as [A B]. split; [exact A|]. split; [exact f43_names_safe|exact B]. Qed.
-Print Assumptions C02_no_new_owner_reload_refuted_by_capability.
+(* what a reload does to the accounts, collisions included: each loaded account is one that was written, with its
+   capabilities re-added (a subset) and its hostmasks re-added or dropped *)
+Theorem C02_reload_loads_only_written :
+  forall l, forallb wf_user l = true -> forallb hosts_ok l = true ->
+  forall v, In v (C16.Model.us_db (fst (C16.Model.read_users_from None (C16.Model.write_sorted_users l)))) ->
+  C02.Reader.loaded_from l v.
+Proof. intros l H1 H2. exact (proj1 (C02.Reader.read_gen l H1 H2)). Qed.
+Print Assumptions C02_reload_loads_only_written.
